@@ -190,6 +190,21 @@ impl SecretKeyParamsBuilder {
     }
 
     fn validate(&self) -> std::result::Result<(), String> {
+        // Key packets of these versions can not be constructed (`PubKeyInner::write_len` panics)
+        let unconstructible =
+            |v: types::KeyVersion| matches!(v, types::KeyVersion::V5 | types::KeyVersion::Other(_));
+        if unconstructible(self.version.unwrap_or_default()) {
+            return Err(format!("Keys of version {:?} can not be generated", self.version));
+        }
+        for sub in self.subkeys.iter().flatten() {
+            if unconstructible(sub.version) {
+                return Err(format!(
+                    "Subkeys of version {:?} can not be generated",
+                    sub.version
+                ));
+            }
+        }
+
         // Don't allow mixing of v4/v6 primary and subkeys
         match self.version {
             // V6 primary
